@@ -25,8 +25,39 @@ def run(ctx: Ctx):
     grid(ctx, "_RowShareSum", axis=1)
     grid(ctx, "_TotalShareSum", axis=None)
     ctx.require_min("share-of-sum block sites", 12)
+    totals_last(ctx)
     stripe(ctx)
     public(ctx)
+    from .common import no_shared_writes
+
+    no_shared_writes(ctx, "no-shared-write")
+
+
+def totals_last(ctx: Ctx):
+    """The total a share is divided by skips missing sums (nansum); a subtotal PROPAGATES a missing addend (np.sum).  The
+    two do not commute: the total of a subtotal row (nansum of subtotals) is not the subtotal of the rows' totals as
+    soon as one addend cell is missing.  A NaN-skipping total handed to the subtotal machinery is therefore a different
+    denominator: the shares of that subtotal row / column no longer add to 1."""
+    from ..stmts import reachable_functions, resolver
+
+    n = 0
+    for cname in ("_ColumnShareSum", "_RowShareSum", "_TotalShareSum"):
+        ci = ctx.repo.cls(MM, cname)
+        bad = []
+        for fn in reachable_functions(ctx.repo, ci, "blocks"):
+            res = resolver(fn, multi=True)
+            for c in ast.walk(fn):
+                if isinstance(c, ast.Call) and u(c.func).split(".")[0] in ("SumSubtotals", "PositiveTermSubtotals", "NegativeTermSubtotals") and c.args:
+                    n += 1
+                    for v in res(c.args[0]):
+                        if any(isinstance(x, ast.Call) and u(x.func) in ("np.nansum", "np.nanmean") for x in ast.walk(v)):
+                            bad.append(u(c)[:90])
+        where = f"{MM}::{cname}.blocks"
+        if bad:
+            ctx.violated("totals-last", where, sorted(set(bad)), "np.nansum(<block of sums incl. its subtotals>, axis) as the denominator", "a NaN-skipping total is fed to the NaN-propagating subtotal sums: subtotal of the totals instead of total of the subtotal")
+        else:
+            ctx.held("totals-last", where, "no NaN-skipping total is handed to the subtotal machinery", "")
+    ctx.count("subtotal calls in the share-of-sum measures", n)
 
 
 def grid(ctx: Ctx, cname: str, axis):
